@@ -105,3 +105,76 @@ func VP_C15_ReadOnlyCallsDoNotMutate() {
 	vpAssert("directory-byte-identical", vpFsSame(before, vpFsSnapshot(base)))
 	vpCover("end")
 }
+
+// VP_C15_SingleFault: every mutating operation with exactly one injected system-call failure
+// (the failing call is chosen by the engine among all file-system calls of the operation): an
+// operation that reports failure leaves the store (outside the work area) exactly as it was.
+// Engine-side fault injection: the assertions are model-level (no native counterpart).
+func VP_C15_SingleFault() {
+	base := vpMkStoreDir()
+	d := vpNewDir(base, 1)
+	pw := vpStr("oldpw", 2)
+	salt := vpBytes("oldsalt", 16)
+	rec := refRecord(1, 1600000000, salt, refDigest(1, pw, salt)) + vpAux()
+	admin := vpChoose("admin", 2) == 1
+	ext := ".user"
+	if admin {
+		ext = ".admin"
+	}
+	if os.WriteFile(filepath.Join(base, "u"+ext), []byte(rec), 0600) != nil ||
+		os.WriteFile(filepath.Join(base, "root.admin"), []byte(vpSupportedRecord()), 0600) != nil {
+		panic("setup")
+	}
+	if vpChoose("tmp-exists", 2) == 1 {
+		os.Mkdir(filepath.Join(base, ".tmp"), 0700)
+	}
+	before := vpFsSnapshotNoTmp(base)
+	op := vpChoose("op", 4)
+	newpw := vpStr("pw", 2)
+	vpFaultArm()
+	var err error
+	switch op {
+	case 0:
+		err = d.AddUser("w", newpw, vpChoose("newadmin", 2) == 1)
+	case 1:
+		err = d.UpdateUser("u", newpw)
+	case 2:
+		err = d.SetAdmin("u", !admin)
+	case 3:
+		d.RemoveUser("u")
+	}
+	vpFaultDisarm()
+	fired := vpFaultFired()
+	same := vpFsSame(before, vpFsSnapshotNoTmp(base))
+	// is the change completely in place (as after a successful run)?
+	complete := false
+	switch op {
+	case 0:
+		r := vpAuth(d, "w", newpw)
+		complete = r.ok
+	case 1:
+		r := vpAuth(d, "u", newpw)
+		complete = r.ok
+	case 2:
+		ex, adm, _ := d.Exists("u")
+		complete = ex && adm == !admin
+	}
+	names := []string{"add", "update", "setadmin", "remove"}
+	if op != 3 {
+		vpAssert("model: without-a-fault-the-operation-succeeds", vpImp(!fired, err == nil))
+		vpAssert("model: failed-"+names[op]+"-leaves-no-partial-state", vpImp(err != nil, vpOr(same, complete)))
+		call := vpFaultWhere() // e.g. "fsync#..": the kind of the failing call keys the finding
+		for i := 0; i < len(call); i++ {
+			if call[i] == '#' {
+				call = call[:i]
+				break
+			}
+		}
+		vpAssert("model: "+names[op]+"-reports-failure-only-if-nothing-changed (failing call: "+call+")", vpImp(err != nil, same))
+	}
+	// whatever happened, the other users' records are intact
+	by, berr := os.ReadFile(filepath.Join(base, "root.admin"))
+	vpAssert("bystander-intact", berr == nil && len(by) > 0)
+	vpNote("fault", vpFaultWhere())
+	vpCover("end")
+}
